@@ -327,6 +327,7 @@ class Message:
                 "send_flags": int(self.send_flags),
                 "extra": self.extra,
                 "acks": self.acks,
+                "trailer": self.raw_trailer,
             })
 
         return base_repr
@@ -349,6 +350,8 @@ class Message:
             msg.send_flags = dict_val['send_flags']
             msg.extra = dict_val['extra']
             msg.acks = dict_val['acks']
+            # Not present in anything exported before the trailer was kept at all
+            msg.raw_trailer = dict_val.get('trailer', b"")
         return msg
 
     @classmethod
